@@ -240,7 +240,18 @@ func job(i int) {
 	}
 }
 
+// warm leaves a few released frames in the pool of the goroutine that runs Main: whatever a
+// new runtime record is created from must not include them
+func warm(k int) int {
+	if k == 0 {
+		return 1
+	}
+	x := k * 2
+	return warm(k-1) + x
+}
+
 func Main() {
+	hook.Ev("warm", warm(2+hook.Choose(3)))
 	rounds := 1 + hook.Choose(2)
 	for r := 0; r < rounds; r++ {
 		n := 1 + hook.Choose(3)
